@@ -486,6 +486,18 @@ def split_extension(rng, m):
                     del t['values'][vn]
                 blocks.append(f'extend enum {name} {{\n' + '\n'.join(desc_sdl(full['values'][vn]['desc'], '  ') + f'  {vn}{dep_sdl(full["values"][vn]["deprecation"])}'
                                                                      for vn in moved) + '\n}')
+        elif k == 'scalar':
+            # @specifiedBy moves to an extension; further extensions that only apply a directive come before or after it
+            ext = []
+            if t.get('specified_by') and rng.random() < 0.6:
+                ext.append(f'extend scalar {name} @specifiedBy(url: {q(t["specified_by"])})')
+                t['specified_by'] = None
+            on_scalar = [dn for dn, d in m['directives'].items() if 'SCALAR' in d['locations']
+                         and all(a['type'][0] != 'nn' or a['default'] is not None for a in d['args'].values())]
+            if on_scalar and rng.random() < 0.6:
+                for dn in rng.sample(on_scalar, min(len(on_scalar), rng.randint(1, 2))):     # each at most once (non-repeatable)
+                    ext.insert(rng.randint(0, len(ext)), f'extend scalar {name} @{dn}')
+            blocks.extend(ext)
         elif k == 'union':
             cut = rng.randint(1, len(t['members'])) if rng.random() < 0.6 else len(t['members'])
             moved = t['members'][cut:]
